@@ -589,6 +589,7 @@ def run(ctx):
     docs = [d for _, d in judged]
     # G: the writer models that start from the text nodes, against the real writers (request 2003)
     c20_nodes.run_nodes(ctx, res, sets)
+    c20_nodes.run_dfxp_nodes(ctx, res)
     # H: "that reader reads the document" on the read-back domain (request 2004)
     c20_nodes.run_read(ctx, res, sets)
     # I: non-default writer options (force= / lang=) and multi-language sets with an empty language
